@@ -898,6 +898,7 @@ class Unit:
         self.lost = []
         self.notes = []
         self.closure_sigs = {}
+        self.loop_sigs = {}
         self.trusted = []         # A- ids
         self.vacuity_fns = []
         self.expected_fail = set()
@@ -1031,6 +1032,15 @@ class Unit:
         for e in body_edits:
             e(body)
         # --- splices ---
+        # loop invariants are keyed by loop ordinal.  Guard against reordered / replaced loops (a harmless edit of /repo may swap
+        # two independent loops): the header of every loop that gets an invariant must be the one recorded on the reference tree
+        loop_heads = [norm_ws(body.t[a:b]) for a, b in body.loops()]
+        self.loop_sigs[disp] = loop_heads
+        base_heads = base_loops().get(self.name, {}).get(disp)
+        if base_heads is not None and loops:
+            for k in loops:
+                if k < len(loop_heads) and k < len(base_heads) and loop_heads[k] != base_heads[k]:
+                    body.lost.append('loop #%d has another header than on the reference tree (%r vs %r): invariants may be attached to the wrong loop' % (k, loop_heads[k][:60], base_heads[k][:60]))
         n_loops = len(body.loops())
         if n_loops > len(loops or {}):
             # a loop the unit has no invariant for (e.g. introduced by an edit of /repo): a failing obligation of this
@@ -1261,6 +1271,19 @@ def closure_params(t):
 
 
 _BASE_CLOSURES = None
+_BASE_LOOPS = None
+
+
+def base_loops():
+    """headers of the loops of each function on the reference tree (recorded by --rebaseline)"""
+    global _BASE_LOOPS
+    if _BASE_LOOPS is None:
+        p = os.path.join(os.path.dirname(os.path.abspath(__file__)), 'baseline_obligations.json')
+        try:
+            _BASE_LOOPS = json.load(open(p)).get('__loops__', {})
+        except Exception:
+            _BASE_LOOPS = {}
+    return _BASE_LOOPS
 
 
 def base_closures():
